@@ -389,43 +389,73 @@ inductive RegKind where
 def RegKind.kind : RegKind → Nat
   | .str .. => 0 | .inaddr .. => 1 | .list .. => 2 | .obj => 3
 
+/-- what `conf_register_node` finds or creates for a string: base (now `specified`), value, subtype, cached parse -/
+def strFields (name : Bytes) : Option Node → Base × Option Bytes × SubTy × Parsed
+  | some (.str b v _ s p) => ({ b with specified := true }, v, s, p)
+  | _ => (⟨name, false, true, false⟩, none, .plain, .zero)
+
+def inaddrFields (name : Bytes) : Option Node → Base × Option OStr × Option OStr
+  | some (.inaddr b h s _ _) => ({ b with specified := true }, h, s)
+  | _ => (⟨name, false, true, false⟩, none, none)
+
+def listFields (name : Bytes) : Option Node → Base × List Bytes × Bool
+  | some (.list b v c _) => ({ b with specified := true }, v, c)
+  | _ => (⟨name, false, true, false⟩, [], false)
+
+def objFields (name : Bytes) : Option Node → Base × List Node
+  | some (.obj b ks) => ({ b with specified := true }, ks)
+  | _ => (⟨name, false, true, false⟩, [])
+
+/-- `conf_register_string` on the node found or created -/
+def regStr (V : Variant) (sv : Bool) (name : Bytes) (sub : SubTy) (dflt : Option Bytes) (wantHook : Bool) (e : Eff)
+    (pfx : List Bytes) (ex : Option Node) : Except Fault (Node × Eff) :=
+  match strFields name ex with
+  | (b, value, osub, parsed) =>
+    match strParse V sv value dflt sub (if V.f14 && osub != sub then Parsed.zero else parsed) b.hook with
+    | .error f => .error f
+    | .ok r =>
+      .ok (.str { b with hook := b.hook || wantHook } r.value dflt sub r.parsed,
+        { e with warns := e.warns + (if r.warn then 1 else 0) }.fire r.fire 0 (pfx ++ [b.name]))
+
+/-- `conf_register_inaddr` -/
+def regInaddr (V : Variant) (name : Bytes) (dh ds : Option Bytes) (wantHook : Bool) (e : Eff)
+    (ex : Option Node) : Except Fault (Node × Eff) :=
+  match inaddrFields name ex with
+  | (b, ho, so) =>
+    if V.f16 && !b.present then
+      match e.heap.freeOpt "conf_register_inaddr: hostname" ho with
+      | .error f => .error f
+      | .ok hp =>
+        match hp.freeOpt "conf_register_inaddr: service" so with
+        | .error f => .error f
+        | .ok hp =>
+          .ok (.inaddr { b with hook := b.hook || wantHook } (hp.dupOpt dh).1 ((hp.dupOpt dh).2.dupOpt ds).1 dh ds,
+            { e with heap := ((hp.dupOpt dh).2.dupOpt ds).2 })
+    else .ok (.inaddr { b with hook := b.hook || wantHook } ho so dh ds, e)
+
+/-- `conf_register_string_list(_sv)` -/
+def regList (V : Variant) (name : Bytes) (dflt : List Bytes) (wantHook : Bool) (e : Eff) (ex : Option Node) :
+    Except Fault (Node × Eff) :=
+  match listFields name ex with
+  | (b, v, cap) =>
+    if (if V.f15 then !b.present else !cap) then
+      .ok (.list { b with hook := b.hook || wantHook } dflt (cap || !dflt.isEmpty) dflt, e)
+    else .ok (.list { b with hook := b.hook || wantHook } v cap dflt, e)
+
+/-- `conf_register_object` -/
+def regObj (name : Bytes) (wantHook : Bool) (e : Eff) (ex : Option Node) : Except Fault (Node × Eff) :=
+  match objFields name ex with
+  | (b, ks) => .ok (.obj { b with hook := b.hook || wantHook } ks, e)
+
 /-- `conf_register_string` / `_inaddr` / `_string_list(_sv)` / `_object` on the parent's
     contents, followed by the harness' `node->hook = …` when `wantHook`. -/
 def regLeaf (V : Variant) (sv : Bool) (name : Bytes) (rk : RegKind) (wantHook : Bool) (e : Eff)
     (pfx : List Bytes) (kids : List Node) : Except Fault (List Node × Eff) :=
-  nupsert name rk.kind (fun ex =>
-    match rk, ex with
-    | .str sub dflt, ex => do
-      let (b, value, osub, parsed) := match ex with
-        | some (.str b v _ s p) => ({ b with specified := true }, v, s, p)
-        | _ => (⟨name, false, true, false⟩, none, SubTy.plain, Parsed.zero)
-      let parsed := if V.f14 && osub != sub then Parsed.zero else parsed
-      let r ← strParse V sv value dflt sub parsed b.hook
-      let e := { e with warns := e.warns + (if r.warn then 1 else 0) }.fire r.fire 0 (pfx ++ [b.name])
-      .ok (.str { b with hook := b.hook || wantHook } r.value dflt sub r.parsed, e)
-    | .inaddr dh ds, ex => do
-      let (b, ho, so) := match ex with
-        | some (.inaddr b h s _ _) => ({ b with specified := true }, h, s)
-        | _ => (⟨name, false, true, false⟩, none, none)
-      if V.f16 && !b.present then do
-        let hp ← e.heap.freeOpt "conf_register_inaddr: hostname" ho
-        let hp ← hp.freeOpt "conf_register_inaddr: service" so
-        let (ho, hp) := hp.dupOpt dh
-        let (so, hp) := hp.dupOpt ds
-        .ok (.inaddr { b with hook := b.hook || wantHook } ho so dh ds, { e with heap := hp })
-      else .ok (.inaddr { b with hook := b.hook || wantHook } ho so dh ds, e)
-    | .list dflt, ex =>
-      let (b, v, cap) := match ex with
-        | some (.list b v c _) => ({ b with specified := true }, v, c)
-        | _ => (⟨name, false, true, false⟩, [], false)
-      let install := if V.f15 then !b.present else !cap
-      let (v, cap) := if install then (dflt, cap || !dflt.isEmpty) else (v, cap)
-      .ok (.list { b with hook := b.hook || wantHook } v cap dflt, e)
-    | .obj, ex =>
-      let (b, ks) := match ex with
-        | some (.obj b ks) => ({ b with specified := true }, ks)
-        | _ => (⟨name, false, true, false⟩, [])
-      .ok (.obj { b with hook := b.hook || wantHook } ks, e)) kids
+  nupsert name rk.kind (match rk with
+    | .str sub dflt => regStr V sv name sub dflt wantHook e pfx
+    | .inaddr dh ds => regInaddr V name dh ds wantHook e
+    | .list dflt => regList V name dflt wantHook e
+    | .obj => regObj name wantHook e) kids
 
 /-- install a hook on an existing node (what src/log.c does to the children of `logs`) -/
 def setHook : List Bytes → Nat → List Node → Option (List Node)
